@@ -14,7 +14,7 @@ use num_rational::BigRational;
 use num_traits::{One, Pow, Signed, ToPrimitive, Zero};
 use std::cmp::Ordering;
 
-include!("c14_dispatch.rs");
+include!("../inc/c14_dispatch.rs");
 
 /// exact extended real
 #[derive(Clone, Debug, PartialEq)]
